@@ -23,12 +23,17 @@ pub struct Case {
     /// 0 first radial, 1 second radial only, 2 first (212) and a later radial (35), 3 none, 4 every radial
     pub vol: u8,
     pub level: u32,
+    /// radial status per radial: 0 = consistent with the runs (elevation start on the first radial
+    /// of a run, intermediate otherwise); 1 = every radial "intermediate"; 2 = every radial
+    /// "elevation start"; 3 = codes 3,1,2,0,4,5 cycling with the position in the volume. The
+    /// conversion groups by elevation number only, so modes 1..3 must give the same sweeps.
+    pub status_mode: u8,
 }
 
 impl Case {
     pub fn json(&self) -> Value {
         json!({"runs": self.runs.iter().map(|r| [r.0 as u64, r.1 as u64]).collect::<Vec<_>>(), "splits": self.splits,
-            "meta": self.meta.map(|m| [m.0, m.1]), "moments": self.moments, "gates": self.gates, "vol": self.vol, "level": self.level})
+            "meta": self.meta.map(|m| [m.0, m.1]), "moments": self.moments, "gates": self.gates, "vol": self.vol, "level": self.level, "status_mode": self.status_mode})
     }
     pub fn from_json(v: &Value) -> Case {
         Case {
@@ -39,6 +44,7 @@ impl Case {
             gates: v["gates"].as_u64().unwrap_or(0) as u16,
             vol: v["vol"].as_u64().unwrap_or(0) as u8,
             level: v["level"].as_u64().unwrap_or(9) as u32,
+            status_mode: v["status_mode"].as_u64().unwrap_or(0) as u8,
         }
     }
     fn radial_count(&self) -> usize {
@@ -103,7 +109,12 @@ fn build(c: &Case) -> (Vec<u8>, Vec<ExpRadial>, Option<u16>) {
     for (elev, count) in &c.runs {
         for j in 0..*count {
             let mut h = T31Header::basic(*elev, j + 1, 19000, 1000 + i as u32);
-            h.status = if j == 0 { 0 } else { 1 };
+            h.status = match c.status_mode {
+                1 => 1,
+                2 => 0,
+                3 => [3u8, 1, 2, 0, 4, 5][i % 6],
+                _ => if j == 0 { 0 } else { 1 },
+            };
             let mut blocks = Vec::new();
             let vcp = match c.vol {
                 0 => (i == 0).then_some(212u16),
@@ -304,7 +315,7 @@ fn runs_from_word(w: &[u64], alphabet: &[u8], lens: &[u16]) -> Vec<(u8, u16)> {
 
 pub fn cases(thorough: bool) -> Vec<Case> {
     let mut out = Vec::new();
-    let base = Case { runs: vec![], splits: vec![], meta: None, moments: 1, gates: 4, vol: 0, level: 9 };
+    let base = Case { runs: vec![], splits: vec![], meta: None, moments: 1, gates: 4, vol: 0, level: 9, status_mode: 0 };
     // A. elevation words x run-length patterns x every record partition
     let maxlen = if thorough { 7 } else { 5 };
     let lens_patterns: Vec<Vec<u16>> = if thorough { vec![vec![1], vec![2], vec![1, 2, 3], vec![3, 1]] } else { vec![vec![1], vec![2, 1]] };
@@ -369,7 +380,7 @@ pub fn cases(thorough: bool) -> Vec<Case> {
                     if gates == 1840 && !thorough && runs.len() == 1 && moments < 3 {
                         continue;
                     }
-                    out.push(Case { runs, splits: vec![2], meta: Some((1, 0)), moments, gates, vol, level: if gates == 1 { 1 } else { 9 } });
+                    out.push(Case { runs, splits: vec![2], meta: Some((1, 0)), moments, gates, vol, level: if gates == 1 { 1 } else { 9 }, status_mode: 0 });
                 }
             }
         }
@@ -384,37 +395,45 @@ pub fn cases(thorough: bool) -> Vec<Case> {
             for runs in [vec![(1u8, 4u16), (2, 3), (1, 2)], vec![(3, 7)]] {
                 let m: usize = runs.iter().map(|r| r.1 as usize).sum();
                 for splits in [vec![], (1..m).collect::<Vec<_>>(), vec![3, 5]] {
-                    out.push(Case { runs: runs.clone(), splits, meta: Some((0, 2)), moments, gates, vol: 0, level: 9 });
+                    out.push(Case { runs: runs.clone(), splits, meta: Some((0, 2)), moments, gates, vol: 0, level: 9, status_mode: 0 });
                 }
             }
         }
     }
     for gates in [255u16, 256, 257, 258, 511, 512, 513, 1024] {
-        out.push(Case { runs: vec![(1, 2), (2, 1)], splits: vec![1], meta: None, moments: 3, gates, vol: 0, level: 9 });
+        out.push(Case { runs: vec![(1, 2), (2, 1)], splits: vec![1], meta: None, moments: 3, gates, vol: 0, level: 9, status_mode: 0 });
     }
     for (n, per_record) in [(300u16, 1usize), (257, 256), (720, 100), (65u16, 64)] {
         // long runs: more than 255/256 radials in one sweep, many single-message records
         let runs = vec![(1u8, n), (2, 2), (1, n)];
         let total = 2 * n as usize + 2;
-        out.push(Case { runs, splits: (1..total).filter(|k| k % per_record == 0).collect(), meta: Some((1, 0)), moments: 1, gates: 2, vol: 0, level: 9 });
+        out.push(Case { runs, splits: (1..total).filter(|k| k % per_record == 0).collect(), meta: Some((1, 0)), moments: 1, gates: 2, vol: 0, level: 9, status_mode: 0 });
     }
     for runs in [vec![(1u8, 2u16), (2, 2)], vec![(5, 1)], vec![(1, 3), (2, 3), (1, 3), (3, 3)]] {
         let m: usize = runs.iter().map(|r| r.1 as usize).sum();
         // level 0 = an empty record after every record
-        out.push(Case { runs: runs.clone(), splits: (1..m).collect(), meta: None, moments: 2, gates: 4, vol: 1, level: 0 });
-        out.push(Case { runs, splits: vec![], meta: Some((0, 0)), moments: 1, gates: 4, vol: 0, level: 0 });
+        out.push(Case { runs: runs.clone(), splits: (1..m).collect(), meta: None, moments: 2, gates: 4, vol: 1, level: 0, status_mode: 0 });
+        out.push(Case { runs, splits: vec![], meta: Some((0, 0)), moments: 1, gates: 4, vol: 0, level: 0, status_mode: 0 });
     }
     // C3. one record whose decompressed size crosses 64 KiB, 1 MiB, 4 MiB, 8 MiB (thorough: 16, 32 MiB)
     let big: Vec<u16> = if thorough { vec![5, 80, 300, 600, 1200, 2400] } else { vec![5, 80, 300, 600] };
     for n in big {
-        out.push(Case { runs: vec![(1, n / 2), (2, n - n / 2)], splits: vec![], meta: None, moments: 3, gates: 1840, vol: 0, level: 1 });
+        out.push(Case { runs: vec![(1, n / 2), (2, n - n / 2)], splits: vec![], meta: None, moments: 3, gates: 1840, vol: 0, level: 1, status_mode: 0 });
     }
     // D. realistic structured volumes: 720 radials per elevation, 120 radials per record
     let big = vec![(1u8, 720u16), (2, 720), (1, 720), (3, 360)];
-    out.push(Case { runs: big.clone(), splits: (1..22).map(|k| k * 120).collect(), meta: Some((1, 0)), moments: 2, gates: if thorough { 460 } else { 40 }, vol: 4, level: 9 });
+    out.push(Case { runs: big.clone(), splits: (1..22).map(|k| k * 120).collect(), meta: Some((1, 0)), moments: 2, gates: if thorough { 460 } else { 40 }, vol: 4, level: 9, status_mode: 0 });
     if thorough {
-        out.push(Case { runs: vec![(1, 720)], splits: vec![], meta: None, moments: 3, gates: 1840, vol: 0, level: 9 });
+        out.push(Case { runs: vec![(1, 720)], splits: vec![], meta: None, moments: 3, gates: 1840, vol: 0, level: 9, status_mode: 0 });
     }
+    // D. radial status independent of the elevation number: every case of at most 8 radials with
+    // at least two elevation runs, again under status modes 1..=3
+    let again: Vec<Case> = out
+        .iter()
+        .filter(|c| c.meta.is_none() && c.runs.len() >= 2 && c.radial_count() <= 8 && c.moments == 1 && c.splits.len() <= 2)
+        .flat_map(|c| (1..=3u8).map(move |m| Case { status_mode: m, ..c.clone() }))
+        .collect();
+    out.extend(again);
     out
 }
 
@@ -445,11 +464,11 @@ pub fn run(ctx: &'static Ctx) -> (&'static str, Value, Vec<&'static str>) {
     // history: scan() of different volumes back to back on one fresh thread (large, failing,
     // empty, tiny) must give each volume's history-free result
     let hv: Vec<Case> = vec![
-        Case { runs: vec![(1, 40), (2, 45)], splits: vec![], meta: None, moments: 3, gates: 1840, vol: 0, level: 1 },
-        Case { runs: vec![(1, 2), (2, 1)], splits: vec![1], meta: Some((0, 1)), moments: 1, gates: 4, vol: 0, level: 9 },
-        Case { runs: vec![(4, 3)], splits: vec![], meta: None, moments: 2, gates: 257, vol: 3, level: 9 },
-        Case { runs: vec![], splits: vec![], meta: None, moments: 0, gates: 0, vol: 0, level: 9 },
-        Case { runs: vec![(1, 2), (2, 2), (1, 2), (3, 2)], splits: vec![2, 4, 6], meta: Some((1, 0)), moments: 4, gates: 300, vol: 2, level: 9 },
+        Case { runs: vec![(1, 40), (2, 45)], splits: vec![], meta: None, moments: 3, gates: 1840, vol: 0, level: 1, status_mode: 0 },
+        Case { runs: vec![(1, 2), (2, 1)], splits: vec![1], meta: Some((0, 1)), moments: 1, gates: 4, vol: 0, level: 9, status_mode: 0 },
+        Case { runs: vec![(4, 3)], splits: vec![], meta: None, moments: 2, gates: 257, vol: 3, level: 9, status_mode: 0 },
+        Case { runs: vec![], splits: vec![], meta: None, moments: 0, gates: 0, vol: 0, level: 9, status_mode: 0 },
+        Case { runs: vec![(1, 2), (2, 2), (1, 2), (3, 2)], splits: vec![2, 4, 6], meta: Some((1, 0)), moments: 4, gates: 300, vol: 2, level: 9, status_mode: 0 },
     ];
     let hbytes: Vec<Vec<u8>> = hv.iter().map(|c| build(c).0).collect();
     let sh = history_check(
